@@ -54,6 +54,17 @@ func safe(c *core.Ctx, what string, f func()) (ok bool) {
 	return true
 }
 
+// quiet runs f; a panic inside it is not C17's business (used for the planner step only).
+func quiet(f func()) (ok bool) {
+	defer func() {
+		if r := recover(); r != nil {
+			ok = false
+		}
+	}()
+	f()
+	return true
+}
+
 // wellFormed: no nil child and no NaN/±Inf literal (the guard of the model's theorems).
 func wellFormed(e stmt.Expr) bool {
 	switch x := e.(type) {
@@ -371,11 +382,14 @@ func caseSQL(c *core.Ctx, r *rand.Rand) {
 	}
 	c.Branch("sql-accepted")
 	c.Branch(fmt.Sprintf("sql-depth-%d", depth))
-	// (iii) same text again: equal statements (modulo the clock for now()-relative ranges)
+	// (iii) same text again: equal statements (modulo the clock for now()-relative ranges).
+	// `fresh` is the snapshot of the first parse, taken before anything touches the result.
+	fresh := stmtDump(st, g.absTime)
 	st2, err2 := parse(c, text)
-	if err2 != nil || stmtDump(st2, g.absTime) != stmtDump(st, g.absTime) {
+	if err2 != nil || stmtDump(st2, g.absTime) != fresh {
 		c.Fail("parser-nondeterministic", fmt.Sprintf("%q parsed twice gives different statements (err=%v)", text, err2))
 	}
+	defer reparseAfterMutation(c, r, text, g.absTime, fresh, st, st2)
 	if !g.absTime {
 		// make the case reproducible: the wall clock is replaced by values from the case's PRNG
 		c.Branch("time-now-relative")
@@ -400,10 +414,41 @@ func caseSQL(c *core.Ctx, r *rand.Rand) {
 		c.Branch("parser-built-ill-formed-tree")
 	}
 	queryOps(c, q, "", "parsed from "+clip(text))
-	if r.Intn(3) == 0 {
+	switch r.Intn(6) {
+	case 0, 1:
 		c.Branch("planned")
 		plan(r, q)
 		queryOps(c, q, "", "planned from "+clip(text))
+	case 2:
+		// the real planner step of the root (query/context.calcTimeRangeAndInterval)
+		c.Branch("planned-real")
+		if quiet(func() { realPlan(r, q) }) {
+			queryOps(c, q, "", "planned (calcTimeRangeAndInterval) from "+clip(text))
+		}
+	}
+}
+
+// reparseAfterMutation is the aliasing oracle: the results handed out so far are rewritten in
+// place (every field, every node), then the byte-identical text is parsed again and must still
+// give the statement a fresh parse gave. A parser that hands out shared mutable structure (a
+// statement cache, pooled nodes, shared slices) fails here.
+func reparseAfterMutation(c *core.Ctx, r *rand.Rand, text string, abs bool, fresh string, results ...stmt.Statement) {
+	for _, st := range results {
+		safe(c, "scramble", func() { scramble(st) })
+	}
+	c.Branch("reparse-after-mutation")
+	n := 1 + r.Intn(2)
+	for k := 0; k < n; k++ {
+		st, err := parse(c, text)
+		if err != nil {
+			c.Fail("parse-result-shared", fmt.Sprintf("%q parsed before, rejected after its earlier result was mutated: %v", clip(text), err))
+			return
+		}
+		if got := stmtDump(st, abs); got != fresh {
+			c.Fail("parse-result-shared", fmt.Sprintf("%q: a parse AFTER the earlier parse result was planned/mutated differs from the fresh parse (Parse hands out shared mutable state): fresh %s, now %s", clip(text), clip(fresh), clip(got)))
+			return
+		}
+		safe(c, "scramble", func() { scramble(st) })
 	}
 }
 
@@ -422,14 +467,55 @@ func caseMetaSQL(c *core.Ctx, r *rand.Rand) {
 		return
 	}
 	c.Branch("meta-accepted")
+	fresh := stmtDump(st, true)
 	st2, err2 := parse(c, text)
-	if err2 != nil || stmtDump(st2, true) != stmtDump(st, true) {
+	if err2 != nil || stmtDump(st2, true) != fresh {
 		c.Fail("parser-nondeterministic", fmt.Sprintf("%q parsed twice gives different statements", text))
 	}
 	metaOps(c, m, "parsed from "+clip(text))
+	reparseAfterMutation(c, r, text, true, fresh, st, st2)
+}
+
+// tagFilterPair: Marshal is used as a map key for tag filter results (query/operator), so two
+// filters must have equal bytes exactly when they are equal filters.
+func tagFilterPair(c *core.Ctx, r *rand.Rand) {
+	c.Branch("marshal-injective")
+	small := []string{"a", "b", "", "a\",\"value\":\"b", "host"}
+	mk := func() stmt.Expr {
+		k, v := small[r.Intn(len(small))], small[r.Intn(len(small))]
+		var e stmt.Expr
+		switch r.Intn(5) {
+		case 0:
+			e = &stmt.EqualsExpr{Key: k, Value: v}
+		case 1:
+			e = &stmt.LikeExpr{Key: k, Value: v}
+		case 2:
+			e = &stmt.RegexExpr{Key: k, Regexp: v}
+		case 3:
+			e = &stmt.InExpr{Key: k, Values: []string{v}}
+		default:
+			e = &stmt.InExpr{Key: k, Values: []string{v, small[r.Intn(len(small))]}}
+		}
+		if r.Intn(4) == 0 {
+			e = &stmt.NotExpr{Expr: e}
+		}
+		return e
+	}
+	for k := 0; k < 6; k++ {
+		a, b := mk(), mk()
+		same := exprDump(a) == exprDump(b)
+		if bytes.Equal(stmt.Marshal(a), stmt.Marshal(b)) != same {
+			c.Fail("marshal-not-injective", fmt.Sprintf("Marshal bytes equal=%v for filters %s and %s", !same, exprDump(a), exprDump(b)))
+		}
+	}
+	exprOps(c, mk(), "")
 }
 
 func caseTrees(c *core.Ctx, r *rand.Rand) {
+	if r.Intn(8) == 0 {
+		tagFilterPair(c, r)
+		return
+	}
 	switch r.Intn(4) {
 	case 0:
 		c.Branch("random-query-value")
@@ -564,12 +650,19 @@ func caseDeterminism(c *core.Ctx, r *rand.Rand) {
 		}
 		items = append(items, item{text: text, abs: g.absTime})
 	}
+	// every result is dumped and then rewritten in place: a later parse of the same text that
+	// returns (parts of) an earlier result shows up as a difference
 	res := func(text string, abs bool) string {
 		st, err := parse(c, text)
 		if err != nil {
 			return "error: " + err.Error()
 		}
-		return stmtDump(st, abs)
+		d := stmtDump(st, abs)
+		if q, ok := st.(*stmt.Query); ok && r.Intn(3) == 0 {
+			quiet(func() { realPlan(r, q) })
+		}
+		safe(c, "scramble", func() { scramble(st) })
+		return d
 	}
 	for k := range items {
 		items[k].want = res(items[k].text, items[k].abs)
@@ -602,6 +695,7 @@ func caseDeterminism(c *core.Ctx, r *rand.Rand) {
 							got = "error: " + err.Error()
 						} else {
 							got = stmtDump(st, it.abs)
+							scramble(st) // concurrent requests own their statement
 						}
 					}()
 					if got != it.want {
@@ -615,7 +709,7 @@ func caseDeterminism(c *core.Ctx, r *rand.Rand) {
 	}
 	wg.Wait()
 	if len(bad) > 0 {
-		c.Fail("parser-nondeterministic", fmt.Sprintf("concurrent parse differs from the sequential one for %q (%d mismatches)", bad[0], len(bad)))
+		c.Fail("parser-nondeterministic", fmt.Sprintf("concurrent parse (each goroutine mutates its own result) differs from the fresh sequential one for %q (%d mismatches)", bad[0], len(bad)))
 	}
 	// one of them through the model as well
 	for _, it := range items {
@@ -628,6 +722,76 @@ func caseDeterminism(c *core.Ctx, r *rand.Rand) {
 			}
 		}
 	}
+}
+
+// caseAliasing: the fixed replay of the aliasing oracle — a statement with two absolute time
+// bounds, one relative to now(), one without a range and a metadata statement; each is parsed,
+// planned by the real planner step, rewritten in place, and parsed again (sequentially and by
+// concurrent requests that each plan + rewrite their own result).
+func caseAliasing(c *core.Ctx, r *rand.Rand) {
+	c.Branch("aliasing-fixed")
+	texts := []struct {
+		text string
+		abs  bool
+	}{
+		{"select f*2, sum(g) as s from cpu" + absRange + " and host='a' group by host,time(10s) having f>1.5 order by s desc", true},
+		{"select f from cpu where time > now()-1h and host in ('a','b')", false},
+		{"select max(f) from cpu where host like 'a*'", false},
+		{"show tag values from cpu with key=host where ip='1.1.1.1' limit 5", true},
+	}
+	for _, t := range texts {
+		st, err := parse(c, t.text)
+		if err != nil {
+			c.Fail("aliasing-witness-rejected", t.text+": "+err.Error())
+			continue
+		}
+		fresh := stmtDump(st, t.abs)
+		if q, ok := st.(*stmt.Query); ok {
+			quiet(func() { realPlan(r, q) })
+			if stmtDump(st, t.abs) == fresh && t.abs {
+				c.Note("planner step did not change the statement")
+			}
+		}
+		reparseAfterMutation(c, r, t.text, t.abs, fresh, st)
+		// concurrent requests with the same text
+		var wg sync.WaitGroup
+		var mu sync.Mutex
+		bad := 0
+		for w := 0; w < 4; w++ {
+			wg.Add(1)
+			go func(seed int64) {
+				defer wg.Done()
+				lr := rand.New(rand.NewSource(seed))
+				for k := 0; k < 20; k++ {
+					func() {
+						defer func() {
+							if rec := recover(); rec != nil {
+								mu.Lock()
+								bad++
+								mu.Unlock()
+							}
+						}()
+						s2, err := sql.Parse(t.text)
+						if err != nil || stmtDump(s2, t.abs) != fresh {
+							mu.Lock()
+							bad++
+							mu.Unlock()
+							return
+						}
+						if q, ok := s2.(*stmt.Query); ok {
+							quiet(func() { realPlan(lr, q) })
+						}
+						scramble(s2)
+					}()
+				}
+			}(r.Int63())
+		}
+		wg.Wait()
+		if bad > 0 {
+			c.Fail("parse-result-shared", fmt.Sprintf("%q: %d of 80 concurrent parse+plan requests did not get a fresh statement", t.text, bad))
+		}
+	}
+	c.NonTrivial()
 }
 
 func (area) Run(c *core.Ctx) error {
@@ -645,6 +809,8 @@ func (area) Run(c *core.Ctx) error {
 			caseWitnesses(c, i)
 		case i == 4:
 			caseIntervals(c, r)
+		case i == 5:
+			caseAliasing(c, r)
 		default:
 			switch k := r.Intn(100); {
 			case k < 45:
